@@ -252,7 +252,7 @@ def _scenarios(nex, n_sched):
 def subchecks(tier):
     if tier == "quick":
         return [Sub("scenarios", _scenarios(500, 6), shards=14)]
-    return [Sub("scenarios", _scenarios(5000, 24), shards=16)]
+    return [Sub("scenarios", _scenarios(15000, 24), shards=16)]
 
 
 def replay(case):
